@@ -381,6 +381,7 @@ def summarise(s: Scn, st: State) -> dict:
                exp_lists=getattr(st, "exp_lists", []), m1_ok=getattr(st, "m1_ok", None), a_int=hex(st.a_int),
                b_int=hex(st.acc.b),
                mutated=sorted(getattr(st, "mutated", set())), not_tlv=st.not_tlv,
+               srp_K=(st.acc.K.b.hex() if getattr(st.acc, "K", None) is not None else None),
                gatt=dict(st.gatt), reasm_diff=st.reasm_diff, framing={k: dict(v) for k, v in st.frames.items()})
     # ---- model request
     a = st.acc_cfg
@@ -1126,6 +1127,102 @@ def gen_scenarios(tier, rnd, lz=None):
 
 # ---- run ----------------------------------------------------------------------
 # ------------------------------------------------------------------ extraction cross-check (vm_compute)
+# ---- bit-exact primitives: Model/Hkdf.v + Model/ChaChaPoly.v against the bytes of real pairings ----------------------
+def _cb(b) -> str:
+    return "[" + ";".join(str(x) for x in bytes(b)) + "]"
+
+
+def start_crypto_ties(ctx):
+    """harness/hkdftie.py and harness/aeadtie.py (shared bit-exact models evaluated by vm_compute against
+    aiohomekit.crypto.hkdf.hkdf_derive / aiohomekit.crypto.chacha20poly1305, independent oracles) in threads"""
+    import threading
+    out = {}
+
+    def one(name):
+        try:
+            mod = __import__(name)
+            out[name] = mod.run(dict(ctx, pid="C03"), "mini")
+        except Exception as e:  # noqa: BLE001
+            out[name] = e
+    ts = [threading.Thread(target=one, args=(n,), daemon=True) for n in ("hkdftie", "aeadtie")]
+    for t in ts:
+        t.start()
+    return ts, out
+
+
+def bitexact_m5_m6(ctx, recs):
+    """The encryption step of real pairings, bit for bit inside Coq: for honest exchanges (one per configuration and
+    transport class) the controller's M5 box and the accessory's M6 box must open, in the byte-level models, under
+    hkdf_derive(K, Pair-Setup-Encrypt-Salt, Pair-Setup-Encrypt-Info, 32) with nonces PS-Msg05 / PS-Msg06 and empty aad to
+    the plaintexts an independent computation (hashlib HMAC + cryptography) gets; a box with its last bit flipped, the
+    M5 box under the M6 nonce and a 15-byte box must not open.  K = the reference accessory's SRP session key."""
+    import re
+    from common import coq_eval
+    from cryptography.hazmat.primitives.ciphers.aead import ChaCha20Poly1305
+    picked, seen = [], set()
+    for r in recs:
+        if r.get("family") in ("honest", "honest:controller-id-length") and r.get("srp_K") and r["bytes"]["m5"] and r["bytes"]["m6"] \
+                and r["impl"].startswith("result=done") and not r.get("gatt"):
+            k = (r["cfg"], r["family"], r["detail"])
+            if k in seen:
+                continue
+            seen.add(k)
+            picked.append(r)
+    picked = picked[:4] if ctx["tier"] != "thorough" else picked[:10]
+    body = ["From Coq Require Import List NArith Bool.", "From AHK Require Import Lib.ByteStr Model.ChaChaPoly Model.Hkdf.",
+            "Import ListNotations.", "Local Open Scope N_scope.",
+            "Definition chk K salt info nonce box (some : bool) (pt : bytes) : N := match hkdf_derive K salt info 32 with "
+            "| None => 9 | Some key => match cp_open key nonce [] box with "
+            "| Some p => if some && beq_bytes p pt then 1 else 0 | None => if some then 0 else 1 end end."]
+    probes = []
+    for r in picked:
+        K = bytes.fromhex(r["srp_K"])
+        key = R.hkdf_sha512(K, R.L_PSE_SALT, R.L_PSE_INFO)
+        for which, label in (("m5", b"PS-Msg05"), ("m6", b"PS-Msg06")):
+            d = dict(ref_decode(bytes.fromhex(r["bytes"][which])) or [])
+            box = d.get(T_ENC)
+            if box is None:
+                continue
+            nonce = b"\0\0\0\0" + label
+            try:
+                pt = ChaCha20Poly1305(key).decrypt(nonce, box, b"")
+            except Exception:  # noqa: BLE001
+                pt = None
+            other = b"\0\0\0\0" + (b"PS-Msg06" if which == "m5" else b"PS-Msg05")
+            probes.append((r, which, "as-sent", nonce, box, pt))
+            probes.append((r, which, "last-bit-flipped", nonce, box[:-1] + bytes([box[-1] ^ 1]), None))
+            probes.append((r, which, "other-nonce", other, box, None))
+            probes.append((r, which, "15-bytes", nonce, box[:15], None))
+    for r, which, name, nonce, box, pt in probes:
+        body.append(f"Eval vm_compute in chk {_cb(bytes.fromhex(r['srp_K']))} {_cb(R.L_PSE_SALT)} {_cb(R.L_PSE_INFO)} {_cb(nonce)} "
+                    f"{_cb(box)} {'true' if pt is not None else 'false'} {_cb(pt or b'')}.")
+    viols = []
+    if not probes:
+        return dict(pairings=0, probes=0, disagreements=None), viols
+    out = coq_eval(ctx["verif"], "C03", "bitexact", "\n".join(body) + "\n", timeout=600)
+    codes = [int(x) for x in re.findall(r"=\s*(\d+)\s*:\s*N", out)]
+    if len(codes) != len(probes):
+        viols.append(violation("bitexact-m5m6:model-eval-failed", f"vm_compute returned {len(codes)} answers for {len(probes)} probes",
+                               False, broken="correspondence Model/Hkdf.v + Model/ChaChaPoly.v vs the bytes of real pairings"))
+        return dict(pairings=len(picked), probes=len(probes), disagreements=None), viols
+    bad = [i for i, c in enumerate(codes) if c != 1]
+    for i in bad[:4]:
+        r, which, name, nonce, box, pt = probes[i]
+        if name == "as-sent" and which == "m5" and pt is None:
+            viols.append(violation("bitexact-m5m6:m5-not-openable:" + r["transport"],
+                                   "the controller's M5 box does not open under HKDF-SHA-512(K, Pair-Setup-Encrypt-Salt/Info) / "
+                                   "PS-Msg05 / empty aad - neither in the byte-level Coq models nor with hashlib + cryptography: a "
+                                   "conformant accessory cannot accept this exchange message", True, srp_session_key_K=r["srp_K"],
+                                   m5=r["bytes"]["m5"], scenario=r["ident"]))
+        else:
+            viols.append(violation("bitexact-m5m6:model-mismatch", f"Model/Hkdf.v + Model/ChaChaPoly.v disagree with the independent "
+                                   f"computation on {which} ({name}) of {r['ident']}: code {codes[i]}", False,
+                                   srp_session_key_K=r["srp_K"], nonce=nonce.hex(), box=box.hex(), expected_plaintext=pt.hex() if pt else None))
+    return dict(pairings=len(picked), probes=len(probes), disagreements=len(bad),
+                plaintext_lengths=sorted({len(p[5]) for p in probes if p[5] is not None}),
+                scenarios=[r["ident"] for r in picked]), viols
+
+
 def FR(n, nsib=0, sibframe=(), cut="items", end="last", after=False):
     return dict(n=n, nsib=nsib, sibframe=tuple(sibframe), cut=cut, end=end, after=after)
 
@@ -1430,6 +1527,7 @@ def run(ctx):
             return dict(coverage=dict(evaluations=0, distinct_nontrivial=0, rule="replay", samples=[]),
                         violations=[violation("replay:unknown-scenario", f"no scenario named {want}", False)])
         scns, workers = scns[:1], 1
+    tie_threads, tie_out = ([], {}) if ctx.get("replay") else start_crypto_ties(ctx)
     recs = run_all(scns, workers)
     for r in recs:
         if "harness_error" in r:
@@ -1551,6 +1649,19 @@ def run(ctx):
                                   f"the extracted driver and vm_compute disagree on {len(xc_bad)} of {n_xc} sampled requests "
                                   f"(first: driver '{xc_bad[0]['driver']}', vm_compute {xc_bad[0]['vm_compute']})", False,
                                   disagreements=xc_bad[:5]))
+    # ---- bit-exact primitives (shared models) + the encryption step of real pairings inside Coq
+    if not ctx.get("replay"):
+        info, v = bitexact_m5_m6(ctx, recs)
+        cov.extra["bitexact_m5_m6"] = info
+        viol += v
+        for t in tie_threads:
+            t.join()
+        for name in ("hkdftie", "aeadtie"):
+            res = tie_out.get(name)
+            if isinstance(res, Exception) or res is None:
+                raise HarnessError(f"{name} failed: {res!r}")
+            cov.extra["primitive_tie_" + name] = res[0]
+            viol += res[1]
     cov.extra["exhaustive"] = True
     cov.extra["exhaustive_part"] = ("every single-bit flip of every byte of the honest M4 and M6 of one exchange (IP; other "
                                     "transports bits 0 and 7; thorough: everything) and of the TLV headers, state and salt "
